@@ -77,6 +77,23 @@ impl CumulativePropagationHandler {
                 // an Ok result never hides a wipe-out (contract of the context operations)
                 !live_empty(old(context).live()) && r is Ok ==> !live_empty(final(context).live()),
     { unimplemented!() }
+    // single-profile bound propagations use the cached profile explanation (Naive / BigStep)
+    #[verifier::external_body]
+    pub fn propagate_lower_bound_with_explanations<Var: IntegerVariable>(&mut self, context: &mut PropagationContextMut, profile: &ResourceProfile<Var>, propagating_task: &Rc<Task<Var>>) -> (r: Result<(), EmptyDomain>)
+        requires old(self).cache_ok(profile)       // @C17 @C08 a cached explanation is used for the profile it was built for only
+        ensures final(self).cache_ok(profile), final(self).explanation_type == old(self).explanation_type,
+                final(context).constraint == old(context).constraint, prop_monotone(old(context).live(), final(context).live()),
+                *final(final(context).assignments) == *final(old(context).assignments),
+                !live_empty(old(context).live()) && r is Ok ==> !live_empty(final(context).live()),
+    { unimplemented!() }
+    #[verifier::external_body]
+    pub fn propagate_upper_bound_with_explanations<Var: IntegerVariable>(&mut self, context: &mut PropagationContextMut, profile: &ResourceProfile<Var>, propagating_task: &Rc<Task<Var>>) -> (r: Result<(), EmptyDomain>)
+        requires old(self).cache_ok(profile)       // @C17 @C08
+        ensures final(self).cache_ok(profile), final(self).explanation_type == old(self).explanation_type,
+                final(context).constraint == old(context).constraint, prop_monotone(old(context).live(), final(context).live()),
+                *final(final(context).assignments) == *final(old(context).assignments),
+                !live_empty(old(context).live()) && r is Ok ==> !live_empty(final(context).live()),
+    { unimplemented!() }
     // proved in unit cumulative_holes (there with the semantic postconditions); the cache clause is the protocol
     #[verifier::external_body]
     pub fn propagate_holes_in_domain<Var: IntegerVariable>(&mut self, context: &mut PropagationContextMut, profile: &ResourceProfile<Var>, propagating_task: &Rc<Task<Var>>) -> (r: Result<(), EmptyDomain>)
@@ -88,8 +105,28 @@ impl CumulativePropagationHandler {
                 !live_empty(old(context).live()) && r is Ok ==> !live_empty(final(context).live()),
     { unimplemented!() }
 }
-pub struct UpdatableStructures<Var> { pub unfixed: Vec<Rc<Task<Var>>> }
+pub struct UpdatableStructures<Var> { pub unfixed: Vec<Rc<Task<Var>>>, pub removed: Ghost<nat> }
 impl<Var> UpdatableStructures<Var> {
+    // the sparse set of unfixed tasks: `unfixed` are all tasks that may be unfixed, the first `count()` of them are active
+    pub open spec fn count(&self) -> nat { (self.unfixed@.len() - self.removed@) as nat }
+    #[verifier::external_body]
+    pub fn number_of_unfixed_tasks(&self) -> (r: usize) ensures r == self.count(), self.removed@ <= self.unfixed@.len() { unimplemented!() }
+    #[verifier::external_body]
+    pub fn has_no_unfixed_tasks(&self) -> (r: bool) ensures r == (self.count() == 0) { unimplemented!() }
+    #[verifier::external_body]
+    pub fn get_unfixed_task_at_index(&self, index: usize) -> (r: Rc<Task<Var>>)
+        requires index < self.count()
+        ensures exists|i: int| #![trigger self.unfixed@[i]] 0 <= i < self.unfixed@.len() && r == self.unfixed@[i]
+    { unimplemented!() }
+    #[verifier::external_body]
+    pub fn temporarily_remove_task_from_unfixed(&mut self, task: &Rc<Task<Var>>)
+        requires old(self).count() > 0
+        ensures final(self).unfixed == old(self).unfixed, final(self).removed@ == old(self).removed@ + 1
+    { unimplemented!() }
+    #[verifier::external_body]
+    pub fn restore_temporarily_removed(&mut self)
+        ensures final(self).unfixed == old(self).unfixed, final(self).removed@ == 0
+    { unimplemented!() }
     #[verifier::external_body]
     pub fn get_unfixed_tasks(&self) -> (r: Vec<&Rc<Task<Var>>>)
         ensures r@.len() == self.unfixed@.len(), forall|i: int| #![trigger r@[i]] 0 <= i < r@.len() ==> *r@[i] == self.unfixed@[i]
@@ -120,5 +157,6 @@ pub fn pv_slice_incl<'a, T>(v: &'a Vec<T>, lo: usize, hi: usize) -> (r: &'a [T])
 //@@EXTRACT find_lb@@
 //@@EXTRACT find_ub@@
 //@@EXTRACT seq@@
+//@@EXTRACT single@@
 } // verus!
 fn main() {}
